@@ -199,3 +199,32 @@ def c06_lexical(repo, tier):
         obs.append({"name": "lexical-lock/at-least-one-request-site-found", "status": "unknown", "detail": "no queue_send call found (renamed?)"})
     return {"name": "lexical", "backend": "ast-dominance", "obligations": obs, "functions": funcs,
             "samples": [{"obligation": o["name"], "verdict": o["status"]} for o in obs[:2]]}
+
+
+def c07_lexical(repo, tier):
+    """only the unhandled consumer marks the queue; pop() is called only by the three consumers"""
+    obs = []
+    marks = []
+    popsites = []
+    import glob as _g
+    root = os.path.join(repo, "src", "geckolib")
+    for path in sorted(_g.glob(os.path.join(root, "**", "*.py"), recursive=True)):
+        if os.sep + "packs" + os.sep in path:
+            continue
+        tree = ast.parse(open(path, encoding="utf-8").read())
+        for cls in [n for n in ast.walk(tree) if isinstance(n, ast.ClassDef)]:
+            for f in [m for m in cls.body if isinstance(m, (ast.FunctionDef, ast.AsyncFunctionDef))]:
+                for n in ast.walk(f):
+                    if isinstance(n, ast.Call) and isinstance(n.func, ast.Attribute) and ast.unparse(n.func.value).endswith("queue"):
+                        site = "%s:%s.%s" % (os.path.relpath(path, root), cls.name, f.name)
+                        if n.func.attr == "mark":
+                            marks.append(site)
+                        if n.func.attr == "pop":
+                            popsites.append(site)
+    obs.append(ob("lexical/only-the-unhandled-consumer-marks", sorted(set(marks)) == ["driver/protocol/unhandled.py:GeckoUnhandledProtocolHandler.consume"], "", {"mark_sites": marks}))
+    want = sorted(["driver/protocol/unhandled.py:GeckoUnhandledProtocolHandler.consume",
+                   "driver/udp_protocol_handler.py:GeckoUdpProtocolHandler.consume",
+                   "driver/udp_protocol_handler.py:GeckoUdpProtocolHandler.wait_for_response"])
+    obs.append(ob("lexical/queue-pop-only-in-the-three-consumers", sorted(set(popsites)) == want, "", {"pop_sites": popsites}))
+    return {"name": "lexical", "backend": "ast-dominance", "obligations": obs, "functions": {},
+            "samples": [{"obligation": o["name"], "verdict": o["status"]} for o in obs[:2]]}
